@@ -37,7 +37,14 @@ _EXPIRED = ("aof.go LoadAofFile drops every LOCK record whose OWN deadline has p
             "resume and a plain recovery all go through it, so a follower synchronised from files holds depth-1 / the older value while the "
             "live leader holds more; the follower equals what a RECOVERY of the leader's own log yields (checked with a shadow process), i.e. the "
             "root cause is the load filter (recovery class, C07), visible through replication")
+_KILLFILE = ("UNTRIAGED, rare and timing dependent (seen in 3 of ~60 runs of scenario `filekill`, seeds 7 and 11): the follower is killed in the middle "
+             "of a (throttled) file phase, restarted on the same half-written dir, told ERR_NOT_FOUND and transferred from scratch; afterwards it is "
+             "connected and caught up, holds the same keys / LockIds / depths as the leader, but ONE key carries a value (set earlier by a lock that "
+             "has since been released) where the leader's key has none. The follower's append file contains every record of that key in the leader's "
+             "order; a short-lived (3 s) lock on the same key whose record copied that value was within a second of its deadline during the transfer. "
+             "Root cause not isolated (value lifetime on the load path vs the live path)")
 PENDING_FINDINGS = {
+    "C09:follower-diverged:killed-in-file-phase": _KILLFILE,
     "C09:follower-missing-record:cut-before-first-file-record": _EARLY,
     "C09:follower-diverged:expired-record:equals-leader-recover": _EXPIRED,
     "C09:follower-diverged:expired-record": _EXPIRED + " [in this run the shadow recovery, which is time dependent, did not match exactly]",
